@@ -12,9 +12,11 @@ implementation kept) is the oracle of the property predicate.
 """
 import contextlib
 import itertools
+import math
 import os
 from fractions import Fraction
 
+import c05_gen
 from common.framework import PropertyCheck, frac_str
 
 NEG = float("-inf")
@@ -81,33 +83,70 @@ def lm_logits_of_hash(h, V, seed, zeros):
     return out
 
 
-def make_lm(V, seed, zeros, dtype):
-    """A stateful MixableSequentialLanguageModel: its state is a rolling hash of the consumed
-    tokens, so its scores are a function of the prefix only if the search re-indexes and mixes
-    the state dictionaries correctly."""
+HASH_MOD = 1000003
+
+
+def hash_from(h0, p):
+    h = h0
+    for v in p:
+        h = (h * 5 + int(v) + 1) % HASH_MOD
+    return h
+
+
+def lm_row(spec, V, prefix, h0=1):
+    """The harness LM as a plain function of (initial context, prefix): the scores the search must use
+    for the extensions of `prefix`, whatever slot holds it and however it got there."""
+    kind = spec.get("kind", "hash")
+    if kind == "hist":
+        h0 = 1                      # stateless: reads the history only
+    row = lm_logits_of_hash(hash_from(h0, prefix), V, spec["seed"], spec["zeros"])
+    if kind == "fusion":
+        h2 = 1 if spec.get("second", "shapes") == "hist" else h0
+        row2 = lm_logits_of_hash(hash_from(h2, prefix), V, spec["seed"] + 1, False)
+        inner = float(Fraction(spec.get("inner", "1/2")))
+        row = [a + inner * b for a, b in zip(row, row2)]
+    return row
+
+
+def make_lm(V, spec, dtype):
+    """Stateful MixableSequentialLanguageModels whose scores are a function of the prefix only if the
+    search re-indexes (`extract_by_src`) and mixes (`mix_by_mask`) the state dictionaries correctly and
+    hands over the right history / lengths.
+
+    kinds: `hash`   — state = rolling hash of the consumed tokens, one long per column;
+           `shapes` — the same hash kept in three tensors of different shapes / dtypes / batch axes
+                      ((M,), (2, M, 3), (M, 1) float64); token v is scored from tensor (v + seed) % 3;
+           `hist`   — no state: the hash is recomputed from `hist[:idx]` (reads every stored token);
+           `fusion` — the library's MixableShallowFusionLanguageModel of a `hash` and a `shapes`/`hist` LM."""
     import torch
-    from pydrobert.torch.modules import MixableSequentialLanguageModel
+    from pydrobert.torch.modules import MixableSequentialLanguageModel, MixableShallowFusionLanguageModel
+
+    def step_hash(h, hist, idx):
+        M = h.size(0)
+        idx = idx.expand(M) if idx.dim() == 0 else idx
+        if hist.size(0) == 0:
+            tok = torch.zeros(M, dtype=torch.long)
+        else:
+            tok = hist.reshape(hist.size(0), -1).gather(0, (idx - 1).clamp(min=0).unsqueeze(0)).squeeze(0)
+        return torch.where(idx == 0, h, (h * 5 + tok + 1) % HASH_MOD)
+
+    def rows_of(hs, seed, zeros):
+        return [lm_logits_of_hash(int(x), V, seed, zeros) for x in hs]
 
     class HashLM(MixableSequentialLanguageModel):
-        def __init__(self):
+        def __init__(self, seed, zeros):
             super().__init__(V)
+            self.seed_, self.zeros_ = seed, zeros
 
         def update_input(self, prev, hist):
             if "h" in prev:
                 return prev
-            return {"h": torch.zeros(hist.size(1), dtype=torch.long)}
+            return {"h": torch.ones(hist.size(1), dtype=torch.long)}
 
         def calc_idx_log_probs(self, hist, prev, idx):
-            h = prev["h"]
-            M = h.size(0)
-            idx = idx.expand(M) if idx.dim() == 0 else idx
-            if hist.size(0) == 0:
-                tok = torch.zeros(M, dtype=torch.long)
-            else:
-                tok = hist.gather(0, (idx - 1).clamp(min=0).unsqueeze(0)).squeeze(0)
-            h2 = torch.where(idx == 0, torch.ones_like(h), (h * 5 + tok + 1) % 1000003)
-            rows = [lm_logits_of_hash(int(x), V, seed, zeros) for x in h2.tolist()]
-            return torch.tensor(rows, dtype=dtype).view(M, V), {"h": h2}
+            h2 = step_hash(prev["h"], hist, idx)
+            M = h2.size(0)
+            return torch.tensor(rows_of(h2.tolist(), self.seed_, self.zeros_), dtype=dtype).view(M, V), {"h": h2}
 
         def extract_by_src(self, prev, src):
             return {"h": prev["h"].gather(0, src)}
@@ -115,7 +154,124 @@ def make_lm(V, seed, zeros, dtype):
         def mix_by_mask(self, prev_true, prev_false, mask):
             return {"h": torch.where(mask, prev_true["h"], prev_false["h"])}
 
-    return HashLM()
+    class ShapesLM(MixableSequentialLanguageModel):
+        def __init__(self, seed, zeros):
+            super().__init__(V)
+            self.seed_, self.zeros_ = seed, zeros
+
+        @staticmethod
+        def state_of(h):
+            return {"h": h.clone(), "layers": h.view(1, -1, 1).expand(2, -1, 3).contiguous(),
+                    "col": h.to(torch.float64).unsqueeze(1)}
+
+        def update_input(self, prev, hist):
+            if "h" in prev:
+                return prev
+            return self.state_of(torch.ones(hist.size(1), dtype=torch.long))
+
+        def calc_idx_log_probs(self, hist, prev, idx):
+            a = step_hash(prev["h"], hist, idx)
+            L = prev["layers"]
+            lay = torch.stack([torch.stack([step_hash(L[i, :, j], hist, idx) for j in range(3)], 1)
+                               for i in range(2)], 0)
+            c = step_hash(prev["col"][:, 0].to(torch.long), hist, idx)
+            M = a.size(0)
+            srcs = [a.tolist(), lay[(self.seed_ >> 1) % 2, :, self.seed_ % 3].tolist(), c.tolist()]
+            rows = []
+            for m in range(M):
+                per = [lm_logits_of_hash(int(srcs[i][m]), V, self.seed_, self.zeros_) for i in range(3)]
+                rows.append([per[(v + self.seed_) % 3][v] for v in range(V)])
+            return torch.tensor(rows, dtype=dtype).view(M, V), \
+                {"h": a, "layers": lay, "col": c.to(torch.float64).unsqueeze(1)}
+
+        def extract_by_src(self, prev, src):
+            return {"h": prev["h"].gather(0, src), "layers": prev["layers"].index_select(1, src),
+                    "col": prev["col"].index_select(0, src)}
+
+        def mix_by_mask(self, prev_true, prev_false, mask):
+            return {"h": torch.where(mask, prev_true["h"], prev_false["h"]),
+                    "layers": torch.where(mask.view(1, -1, 1), prev_true["layers"], prev_false["layers"]),
+                    "col": torch.where(mask.unsqueeze(1), prev_true["col"], prev_false["col"])}
+
+    class HistLM(MixableSequentialLanguageModel):
+        def __init__(self, seed, zeros):
+            super().__init__(V)
+            self.seed_, self.zeros_ = seed, zeros
+
+        def update_input(self, prev, hist):
+            return prev
+
+        def calc_idx_log_probs(self, hist, prev, idx):
+            hist = hist.reshape(hist.size(0), -1)
+            M = hist.size(1)
+            idx = idx.expand(M) if idx.dim() == 0 else idx
+            hs = [hash_from(1, hist[: int(idx[m]), m].tolist()) for m in range(M)]
+            return torch.tensor(rows_of(hs, self.seed_, self.zeros_), dtype=dtype).view(M, V), {}
+
+        def extract_by_src(self, prev, src):
+            return {}
+
+        def mix_by_mask(self, prev_true, prev_false, mask):
+            return {}
+
+    kind = spec.get("kind", "hash")
+    seed, zeros = spec["seed"], spec["zeros"]
+    if kind == "hash":
+        return HashLM(seed, zeros)
+    if kind == "shapes":
+        return ShapesLM(seed, zeros)
+    if kind == "hist":
+        return HistLM(seed, zeros)
+    second = HistLM(seed + 1, False) if spec.get("second", "shapes") == "hist" else ShapesLM(seed + 1, False)
+    return MixableShallowFusionLanguageModel(HashLM(seed, zeros), second, float(Fraction(spec.get("inner", "1/2"))))
+
+
+def lm_initial_state(spec, h0s):
+    """The `prev` dictionary a caller hands to CTCPrefixSearch for the initial contexts `h0s`."""
+    import torch
+    kind = spec.get("kind", "hash")
+    h = torch.tensor(h0s, dtype=torch.long)
+
+    def shapes(h):
+        return {"h": h.clone(), "layers": h.view(1, -1, 1).expand(2, -1, 3).contiguous(),
+                "col": h.to(torch.float64).unsqueeze(1)}
+
+    if kind == "hash":
+        return {"h": h}
+    if kind == "shapes":
+        return shapes(h)
+    if kind == "hist":
+        return {}
+    d = {"first.h": h.clone()}
+    if spec.get("second", "shapes") != "hist":
+        d.update(("second." + k, v) for k, v in shapes(h).items())
+    return d
+
+
+def lay_out(t, layout, junk):
+    """The same values in a different memory layout (non-contiguous views; `junk` fills the cells of the
+    underlying buffer that do not belong to the tensor)."""
+    import torch
+    if layout in (None, "contig"):
+        return t
+    if t.dim() == 1:
+        buf = torch.full((2 * t.size(0) + 1,), junk, dtype=t.dtype)
+        buf[1::2] = t
+        return buf[1::2]
+    T, N, W = t.shape
+    if layout == "perm":
+        return t.permute(1, 0, 2).contiguous().permute(1, 0, 2)
+    if layout == "perm2":
+        return t.permute(2, 0, 1).contiguous().permute(1, 2, 0)
+    if layout == "wide":
+        buf = torch.full((T + 2, N + 1, W + 2), junk, dtype=t.dtype)
+        buf[1:T + 1, :N, 1:W + 1] = t
+        return buf[1:T + 1, :N, 1:W + 1]
+    if layout == "step2":
+        buf = torch.full((T, N, 2 * W), junk, dtype=t.dtype)
+        buf[..., ::2] = t
+        return buf[..., ::2]
+    raise ValueError(layout)
 
 
 @contextlib.contextmanager
@@ -151,13 +307,11 @@ class Recorder:
 
     def __call__(self, probs_t, width, probs_prev, y_prev, y_prev_last, y_prev_lens, prev_is_prefix):
         out = self.orig(probs_t, width, probs_prev, y_prev, y_prev_last, y_prev_lens, prev_is_prefix)
+        d = lambda x: x.detach().clone()
         self.calls.append({
-            "ext": probs_t[0].detach().clone(), "tok": probs_t[1].detach().clone(),
-            "blank": probs_t[2].detach().clone(), "width": width,
-            "in": (y_prev.clone(), y_prev_last.clone(), y_prev_lens.clone(), probs_prev[0].clone(),
-                   probs_prev[1].clone(), prev_is_prefix.clone()),
-            "out": (out[0].clone(), out[1].clone(), out[2].clone(), out[3][0].clone(), out[3][1].clone(),
-                    out[4].clone(), out[5].clone(), out[6].clone()),
+            "ext": d(probs_t[0]), "tok": d(probs_t[1]), "blank": d(probs_t[2]), "width": width,
+            "in": (d(y_prev), d(y_prev_last), d(y_prev_lens), d(probs_prev[0]), d(probs_prev[1]), d(prev_is_prefix)),
+            "out": (d(out[0]), d(out[1]), d(out[2]), d(out[3][0]), d(out[3][1]), d(out[4]), d(out[5]), d(out[6])),
         })
         return out
 
@@ -186,6 +340,39 @@ def tot_of(st, k):
     if "inf" in (a, b):
         return "inf"
     return a + b
+
+
+def trace_events(el):
+    """History classes (see c05_gen) read off the implementation's own trace of one element."""
+    ev = set()
+    below = set()
+    for s in el["steps"][: el["len"]]:
+        i, o = s["in"], s["out"]
+        bin_ = {tuple(i["prefixes"][k]) for k in range(len(i["nb"])) if not isinstance(tot_of(i, k), str)}
+        bout = {tuple(o["prefixes"][k]) for k in range(len(o["nb"])) if not isinstance(tot_of(o, k), str)}
+        for p in below & bin_:
+            if any(p + (v,) in bin_ for v in range(len(s["tok"]))):
+                ev.add("remerge")
+        entered = set()
+        for q in bout:
+            longer = [r for r in bout if len(r) > len(q) and r[:len(q)] == q]
+            if q not in bin_ and longer:
+                ev.add("refill")
+                entered.add(q)
+            for r in longer:
+                if any(r[:L] not in bout for L in range(len(q) + 1, len(r))):
+                    ev.add("gap")
+        for q in bin_ - bout:
+            if any(len(r) > len(q) and r[:len(q)] == q for r in bout):
+                ev.add("evict")
+        below = {q for q in below if q in bout} | entered
+        # a caller-given state may start below a gap
+        if not below and s is el["steps"][0]:
+            for q in bin_:
+                for r in bin_:
+                    if len(r) > len(q) + 1 and r[:len(q)] == q and any(r[:L] not in bin_ for L in range(len(q) + 1, len(r))):
+                        ev.add("gap")
+    return ev
 
 
 class C05(PropertyCheck):
@@ -226,7 +413,9 @@ class C05(PropertyCheck):
         for c in self.malformed():
             yield c
         n_b, n_c, n_d = (150, 150, 150) if tier == "quick" else (3000, 3000, 3000) if tier == "thorough" else (6000, 6000, 5000)
-        gens = [self.gen_module_exact(rng, n_b), self.gen_advance(rng, n_c), self.gen_tol(rng, n_d)]
+        n_h = 70 if tier == "quick" else 1200 if tier == "thorough" else 2500
+        gens = [self.gen_module_exact(rng, n_b), self.gen_advance(rng, n_c), self.gen_tol(rng, n_d),
+                self.gen_history_tol(rng, n_h), self.gen_history_advance(rng, n_h), self.gen_state_advance(rng, n_h)]
         # interleave
         alive = list(gens)
         while alive:
@@ -235,6 +424,183 @@ class C05(PropertyCheck):
                     yield next(g)
                 except StopIteration:
                     alive.remove(g)
+
+    # ---- options of the entry points that are orthogonal to the search itself
+    LAYOUTS = [None, None, None, "perm", "perm2", "wide", "step2"]
+
+    def vary_module(self, rng, case):
+        """memory layout of logits / lens, lens dtype, autograd on, beta given as int, empty prev dict"""
+        case["layout"] = rng.choice(self.LAYOUTS)
+        if case["lens"] is not None:
+            case["lens_dtype"] = rng.choice(["i64", "i64", "i32"])
+            if rng.random() < 0.2:
+                case["lens_layout"] = "step2"
+        if rng.random() < 0.15:
+            case["grad"] = True
+        lm = case.get("lm")
+        if lm is not None:
+            if lm["beta"] in ("0", "1") and rng.random() < 0.5:
+                case["beta_int"] = True
+            if lm.get("init") is None and rng.random() < 0.2:
+                case["prev_empty"] = True
+        for k in [k for k, v in case.items() if v is None and k in ("layout",)]:
+            del case[k]
+        return case
+
+    def gen_lm(self, rng, N):
+        kind = rng.choice(["hash", "hash", "shapes", "hist", "fusion"])
+        lm = {"beta": rng.choice(["0", "1/4", "1/2", "1"]), "valid": rng.random() < 0.5,
+              "seed": rng.randrange(1000), "zeros": rng.random() < 0.3, "kind": kind}
+        if kind == "fusion":
+            lm["second"] = rng.choice(["shapes", "hist"])
+            lm["inner"] = rng.choice(["1/2", "1"])
+        if kind != "hist" and rng.random() < 0.4:
+            lm["init"] = [rng.randrange(2, 5000) for _ in range(N)]
+        return lm
+
+    # ---- histories: beams that lose a prefix below a longer one and get it back
+    WANT = {"remerge", "refill"}
+
+    def gen_history_tol(self, rng, n):
+        """module runs on peaky (near one-hot) frames with narrow beams, T up to 7, repeated tokens; each
+        case is drawn until the plain-float recursion goes through a refill / remerge history."""
+        import struct
+        for _ in range(n):
+            V = rng.choice([2, 2, 3])
+            T = rng.choice([4, 5, 5, 6, 6, 7] if V == 2 else [4, 5, 5, 6])
+            width = rng.choice([2, 3, 3, 4, 4, 5])
+            dtype = rng.choice(["f32", "f64"])
+
+            def make():
+                rows = c05_gen.peaky_rows(rng, V, T)
+                shift = rng.choice([0.0, 0.0, 3.0, -5.0])
+                lg = [[(math.log(x) if x > 0 else NEG) + shift for x in r] for r in rows]
+                if dtype == "f32":
+                    lg = [[x if x == NEG else struct.unpack("f", struct.pack("f", x))[0] for x in r] for r in lg]
+                ev = c05_gen.history_events([c05_gen.softmax(r) for r in lg], [width] * T, V)
+                return lg, ev
+
+            lg, ev = c05_gen.steer(rng, make, self.WANT, 400)
+            N = rng.choice([1, 1, 1, 2])
+            logits = [[[enc(x) for x in lg[t]]] for t in range(T)]
+            lens = None
+            if N == 2:      # a second, ordinary element (shorter or equal), so that frames get frozen
+                for t in range(T):
+                    logits[t].append([self.rand_logit(rng, dtype) for _ in range(V + 1)])
+                lens = [T, rng.randint(0, T)]
+                if rng.random() < 0.5:
+                    logits = [fr[::-1] for fr in logits]
+                    lens = lens[::-1]
+            lm = None
+            if rng.random() < 0.25 and T <= 5 and V == 2:
+                lm = self.gen_lm(rng, N)
+                lm["beta"] = rng.choice(["1/4", "1/2"])
+            case = {"kind": "module", "stream": "tol", "V": V, "width": width, "dtype": dtype, "logits": logits,
+                    "N": N, "lens": lens, "lm": lm, "gen": "history"}
+            yield self.vary_module(rng, case)
+
+    def gen_history_advance(self, rng, n):
+        """the step function driven directly on the exact grid k/denom with peaky rows (zeros included),
+        narrow beams, T up to 7, optionally a different width at every call; drawn until the plain-float
+        recursion goes through a refill / remerge history."""
+        for _ in range(n):
+            V = rng.choice([2, 2, 3])
+            T = rng.choice([4, 5, 5, 6, 6, 7] if V == 2 else [4, 5, 5, 6])
+            dtype = rng.choice(["f32", "f64"])
+            den = 16 if (dtype == "f32" or rng.random() < 0.5) else 64
+            if dtype == "f32" and T > 6:
+                dtype = "f64"       # 16^-7 needs more than 24 bits
+            width = rng.choice([2, 3, 3, 4, 4, 5])
+            widths = None
+            if rng.random() < 0.3:
+                widths = [max(1, width + rng.choice([-2, -1, 0, 0, 1, 2])) for _ in range(T)]
+            ext_seed = rng.choice([None, None, rng.randrange(1 << 16)]) if (V == 2 and T <= 6) else None
+
+            def make():
+                rows = c05_gen.peaky_numerators(rng, V, T, den)
+                ext = None
+                if ext_seed is not None:
+                    ext = lambda t, pref, v: self.adv_ext_row(ext_seed, t, pref, V, rows[t][:V], den)[v] / den
+                ev = c05_gen.history_events([[x / den for x in r] for r in rows], widths or [width] * T, V, ext)
+                return rows, ev
+
+            rows, ev = c05_gen.steer(rng, make, self.WANT, 400)
+            case = {"kind": "advance", "stream": "exact", "V": V, "width": width, "dtype": dtype, "denom": den,
+                    "frames": [{"tok": r[:V], "blank": r[V]} for r in rows], "ext_seed": ext_seed, "lm": None,
+                    "lens": None, "gen": "history"}
+            if widths:
+                case["widths"] = widths
+            yield case
+
+    def gen_state_advance(self, rng, n):
+        """the step function started from an arbitrary well-formed state handed over by the caller: distinct
+        blank-free prefixes in the real slots (chains with missing links on purpose), a correct prefix matrix
+        on the real slots, slots without a prefix (-inf mass) carrying junk tokens / lengths / matrix rows,
+        token buffer taller than the longest prefix; then 1-3 calls, the width may change between calls."""
+        for _ in range(n):
+            V = rng.choice([1, 2, 2, 3])
+            S = rng.choice([0, 1, 2, 3, 3, 4])
+            Kp = rng.choice([1, 2, 3, 4, 5, 6])
+            dtype = rng.choice(["f32", "f64"])
+            den = 16
+            # real prefixes: subsets of the prefixes of one or two long strings (chains with gaps) + strays
+            pool = set()
+            for _c in range(rng.choice([1, 1, 2])):
+                L = rng.randint(0, S)
+                r = tuple(rng.randrange(V) for _ in range(L))
+                for j in range(L + 1):
+                    if rng.random() < 0.6:
+                        pool.add(r[:j])
+            for _c in range(rng.choice([0, 1, 2])):
+                pool.add(tuple(rng.randrange(V) for _ in range(rng.randint(0, S))))
+            pool = sorted(pool)
+            rng.shuffle(pool)
+            n_real = min(len(pool), rng.randint(1, Kp))
+            real = pool[:n_real]
+            slots = real + [None] * (Kp - n_real)
+            rng.shuffle(slots)
+            y, last, lens, nb, b = [], [], [], [], []
+            for p in slots:
+                junk = [rng.randrange(V + 2) for _ in range(S)]
+                if p is None:
+                    lens.append(rng.randint(0, S))
+                    y.append(junk)
+                    last.append(rng.randrange(V + 2))
+                    nb.append("-inf")
+                    b.append(rng.choice(["-inf", 0]))
+                else:
+                    lens.append(len(p))
+                    y.append(list(p) + junk[len(p):])
+                    last.append(p[-1] if p else rng.randrange(V + 2))
+                    tot = rng.choice([0, 1, 2, 3, 4, 6, 8])
+                    x = 0 if not p else rng.randint(0, tot)
+                    nb.append(x)
+                    b.append(tot - x)
+            isp = []
+            for k, p in enumerate(slots):
+                row = []
+                for k2, q in enumerate(slots):
+                    if p is None or q is None:
+                        row.append(rng.random() < 0.3)
+                    else:
+                        row.append(q[:len(p)] == p)
+                isp.append(row)
+            T = rng.choice([1, 1, 2, 3])
+            frames = []
+            for t in range(T):
+                parts = [rng.choice([0, 0, 1, 2, 3, 4, 5, 6, 8]) for _ in range(V + 1)]
+                while sum(parts) > 16:
+                    parts[rng.randrange(V + 1)] //= 2
+                if sum(parts) == 0:
+                    parts[rng.randrange(V + 1)] = 4
+                frames.append({"tok": parts[:V], "blank": parts[V]})
+            width = rng.choice([1, 2, 3, 4, 5, 6, 8, 12, 30])
+            widths = [width] * T if rng.random() < 0.6 else \
+                [rng.choice([1, 2, 3, 4, 5, 6, 8, 12]) for _ in range(T)]
+            yield {"kind": "advance", "stream": "exact", "V": V, "width": widths[-1], "widths": widths, "dtype": dtype,
+                   "denom": den, "frames": frames, "ext_seed": rng.choice([None, rng.randrange(1 << 16)]), "lm": None,
+                   "lens": None, "gen": "state",
+                   "init": {"tm1": S, "y": y, "last": last, "lens": lens, "nb": nb, "b": b, "is_prefix": isp}}
 
     def pick_width(self, rng, V, T):
         r = rng.random()
@@ -266,9 +632,9 @@ class C05(PropertyCheck):
                     zs = set(rng.sample(range(V + 1), nz))
                     fr.append([enc(0.0 if i in zs else NEG) for i in range(V + 1)])
                 logits.append(fr)
-            yield {"kind": "module", "stream": "exact", "V": V, "width": self.pick_width(rng, V, T),
-                   "dtype": rng.choice(["f32", "f64"]), "logits": logits, "N": N,
-                   "lens": self.gen_lens(rng, N, T), "lm": None}
+            yield self.vary_module(rng, {"kind": "module", "stream": "exact", "V": V, "width": self.pick_width(rng, V, T),
+                                         "dtype": rng.choice(["f32", "f64"]), "logits": logits, "N": N,
+                                         "lens": self.gen_lens(rng, N, T), "lm": None})
 
     def gen_advance(self, rng, n):
         for _ in range(n):
@@ -296,10 +662,10 @@ class C05(PropertyCheck):
             logits = [[[self.rand_logit(rng, dtype) for _ in range(V + 1)] for _ in range(N)] for _ in range(T)]
             lm = None
             if rng.random() < 0.6 and T <= 4:
-                lm = {"beta": rng.choice(["0", "1/4", "1/2", "1"]), "valid": rng.random() < 0.5,
-                      "seed": rng.randrange(1000), "zeros": rng.random() < 0.3}
-            yield {"kind": "module", "stream": "tol", "V": V, "width": self.pick_width(rng, V, T), "dtype": dtype,
-                   "logits": logits, "N": N, "lens": self.gen_lens(rng, N, T), "lm": lm}
+                lm = self.gen_lm(rng, N)
+            yield self.vary_module(rng, {"kind": "module", "stream": "tol", "V": V, "width": self.pick_width(rng, V, T),
+                                         "dtype": dtype, "logits": logits, "N": N, "lens": self.gen_lens(rng, N, T),
+                                         "lm": lm})
 
     @staticmethod
     def rand_logit(rng, dtype):
@@ -328,15 +694,15 @@ class C05(PropertyCheck):
 
     # ------------------------------------------------------------------ implementation
     @staticmethod
-    def adv_ext_row(seed, t, prefix, V, tok):
-        """extension probabilities of a prefix in directly driven runs (numerators over 16)."""
+    def adv_ext_row(seed, t, prefix, V, tok, den=16):
+        """extension probabilities of a prefix in directly driven runs (numerators over `den`)."""
         if seed is None:
             return list(tok)
         h = prefix_hash(prefix)
         out = []
         for v in range(V):
             z = (h * 48271 + seed * 131 + t * 7919 + v * 613) % 65537
-            out.append([0, 1, 2, 3, 4, 6, 8, 12][z % 8])
+            out.append([0, 1, 2, 3, 4, 6, 8, 12][z % 8] * (den // 16))
         return out
 
     def run_impl(self, case):
@@ -350,36 +716,54 @@ class C05(PropertyCheck):
         lm_spec = case.get("lm")
         lm = None
         if lm_spec is not None:
-            lm = make_lm(lm_spec.get("vocab", V), lm_spec["seed"], lm_spec["zeros"], dtype)
+            lm = make_lm(lm_spec.get("vocab", V), lm_spec, dtype)
+        grad = bool(case.get("grad"))
+        ctx = contextlib.nullcontext if grad else torch.no_grad
         if case["kind"] == "module":
             T = len(case["logits"])
             N = len(case["logits"][0]) if T else case.get("N", 1)
             logits = torch.tensor([[[dec(x) for x in row] for row in fr] for fr in case["logits"]],
                                   dtype=dtype).view(T, N, V + 1)
-            lens = None if case["lens"] is None else torch.tensor(case["lens"], dtype=torch.long)
+            logits = lay_out(logits, case.get("layout"), 3.0)
+            ldt = torch.int32 if case.get("lens_dtype") == "i32" else torch.long
+            lens = None if case["lens"] is None else lay_out(torch.tensor(case["lens"], dtype=ldt),
+                                                             case.get("lens_layout"), 1)
             if case.get("malform") == "dim2":
                 logits = logits[:, 0]
             if case.get("malform") == "lens2d":
                 lens = torch.zeros((N, 1), dtype=torch.long)
-            beta = float(Fraction(lm_spec["beta"])) if lm_spec else 0.2
+            if grad:
+                logits.requires_grad_(True)
+            beta = Fraction(lm_spec["beta"]) if lm_spec else Fraction(1, 5)
+            beta = int(beta) if (case.get("beta_int") and beta.denominator == 1) else float(beta)
             search = CTCPrefixSearch(width, beta, lm, bool(lm_spec and lm_spec["valid"]))
+            h0s = (lm_spec or {}).get("init")
+            extra = ()
+            if h0s is not None:
+                extra = (lm_initial_state(lm_spec, h0s),)
+            elif case.get("prev_empty"):
+                extra = ({},)
             saved = _decoding.ctc_prefix_search_advance
             _decoding.ctc_prefix_search_advance = rec
             try:
-                with poisoned_empty(V + 3), torch.no_grad():
-                    y, y_lens, probs = search(logits, lens)
+                with poisoned_empty(V + 3), ctx():
+                    y, y_lens, probs = search(logits, lens, *extra)
             finally:
                 _decoding.ctc_prefix_search_advance = saved
+            y, y_lens, probs = y.detach(), y_lens.detach(), probs.detach()
             lens_l = [T] * N if case["lens"] is None else list(case["lens"])
             if y.shape[1:] != (N, width) or y_lens.shape != (N, width) or probs.shape != (N, width):
                 return {"shape_error": [list(y.shape), list(y_lens.shape), list(probs.shape)]}
             elements = []
             for n in range(N):
-                el = self.element_obs(rec.calls, n, lens_l[n], y, y_lens, probs, V, width)
-                # the same element searched alone on its own valid frames (other poison value)
+                el = self.element_obs(rec.calls, n, lens_l[n], y, y_lens, probs, V)
+                # the same element searched alone on its own valid frames (other poison value, plain layout)
+                ex1 = ()
+                if h0s is not None:
+                    ex1 = (lm_initial_state(lm_spec, h0s[n: n + 1]),)
                 with poisoned_empty(0), torch.no_grad():
-                    ya, la, pa = search(logits[: lens_l[n], n: n + 1].contiguous(),
-                                        None if case["lens"] is None else torch.tensor([lens_l[n]]))
+                    ya, la, pa = search(logits.detach()[: lens_l[n], n: n + 1].contiguous(),
+                                        None if case["lens"] is None else torch.tensor([lens_l[n]]), *ex1)
                 el["alone"] = self.result_obs(ya, la, pa, 0)
                 elements.append(el)
             obs = {"elements": elements}
@@ -387,31 +771,50 @@ class C05(PropertyCheck):
         else:
             frames = case["frames"]
             T = len(frames)
-            nb = torch.zeros((1, 1), dtype=dtype)
-            b = torch.ones((1, 1), dtype=dtype)
-            y = torch.empty((0, 1, 1), dtype=torch.long)
-            lens = last = torch.zeros((1, 1), dtype=torch.long)
-            isp = torch.ones((1, 1, 1), dtype=torch.bool)
+            den = case.get("denom", 16)
+            widths = case.get("widths") or [width] * T
+            init = case.get("init")
+            if init is None:
+                nb = torch.zeros((1, 1), dtype=dtype)
+                b = torch.ones((1, 1), dtype=dtype)
+                y = torch.empty((0, 1, 1), dtype=torch.long)
+                lens = last = torch.zeros((1, 1), dtype=torch.long)
+                isp = torch.ones((1, 1, 1), dtype=torch.bool)
+            else:
+                xs = lambda v: NEG if v == "-inf" else v / den
+                nb = torch.tensor([[xs(v) for v in init["nb"]]], dtype=dtype)
+                b = torch.tensor([[xs(v) for v in init["b"]]], dtype=dtype)
+                Kp0 = len(init["nb"])
+                y = torch.tensor(init["y"], dtype=torch.long).view(Kp0, init["tm1"]).t().contiguous().view(init["tm1"], 1, Kp0)
+                lens = torch.tensor([init["lens"]], dtype=torch.long)
+                last = torch.tensor([init["last"]], dtype=torch.long)
+                isp = torch.tensor([init["is_prefix"]], dtype=torch.bool)
             fn = functional.ctc_prefix_search_advance
             rec = Recorder(fn)
             tables = []
-            with poisoned_empty(V + 3), torch.no_grad():
+            with poisoned_empty(V + 3), ctx():
                 for t, fr in enumerate(frames):
                     Kp = nb.size(1)
                     prefs = [tuple(int(x) for x in y[: int(lens[0, k]), 0, k].tolist()) for k in range(Kp)]
-                    ext = torch.tensor([[[x / 16.0 for x in self.adv_ext_row(case["ext_seed"], t, p, V, fr["tok"])]
+                    ext = torch.tensor([[[x / den for x in self.adv_ext_row(case["ext_seed"], t, p, V, fr["tok"], den)]
                                          for p in prefs]], dtype=dtype)
-                    tok = torch.tensor([[x / 16.0 for x in fr["tok"]]], dtype=dtype)
-                    bl = torch.tensor([fr["blank"] / 16.0], dtype=dtype)
+                    tok = torch.tensor([[x / den for x in fr["tok"]]], dtype=dtype)
+                    bl = torch.tensor([fr["blank"] / den], dtype=dtype)
                     if case.get("malform") == "blank_shape":
                         bl = bl.unsqueeze(0)
-                    y, last, lens, (nb, b), isp, _src, _non = rec((ext, tok, bl), width, (nb, b), y, last, lens, isp)
+                    if grad:
+                        ext.requires_grad_(True)
+                    y, last, lens, (nb, b), isp, _src, _non = rec((ext, tok, bl), widths[t], (nb, b), y, last, lens, isp)
                     if case["ext_seed"] is not None:
-                        tables.append([[list(p), [frac_str(Fraction(x, 16)) for x in
-                                                   self.adv_ext_row(case["ext_seed"], t, p, V, fr["tok"])]]
-                                       for L in range(t + 1) for p in itertools.product(range(V), repeat=L)])
-            probs = nb + b
-            el = self.element_obs(rec.calls, 0, T, y, lens, probs, V, width)
+                        if init is None:
+                            plist = [p for L in range(t + 1) for p in itertools.product(range(V), repeat=L)]
+                        else:
+                            plist = sorted(set(prefs))
+                        tables.append([[list(p), [frac_str(Fraction(x, den)) for x in
+                                                   self.adv_ext_row(case["ext_seed"], t, p, V, fr["tok"], den)]]
+                                       for p in plist])
+            probs = (nb + b).detach()
+            el = self.element_obs(rec.calls, 0, T, y.detach(), lens, probs, V)
             el["alone"] = None
             if case["ext_seed"] is not None:
                 el["ext_table"] = tables
@@ -430,9 +833,10 @@ class C05(PropertyCheck):
         return {"prefixes": [[int(t) for t in y[: ln[k], n, k].tolist()] for k in range(K)], "lens": ln,
                 "probs": [frac_str(x) for x in probs[n].tolist()], "S": int(y.size(0))}
 
-    def element_obs(self, calls, n, len_n, y, y_lens, probs, V, width):
+    def element_obs(self, calls, n, len_n, y, y_lens, probs, V):
         steps = []
         for c in calls:
+            width = c["width"]
             yi, lasti, lensi, nbi, bi, ispi = c["in"]
             yo, lasto, lenso, nbo, bo, ispo, src, non = c["out"]
             Kp = nbi.size(1)
@@ -444,7 +848,7 @@ class C05(PropertyCheck):
             steps.append({
                 "in": state_obs(yi, lasti, lensi, nbi, bi, ispi, n),
                 "out": state_obs(yo, lasto, lenso, nbo, bo, ispo, n),
-                "src": src_l, "is_nonext": non_l, "sel": sel,
+                "src": src_l, "is_nonext": non_l, "sel": sel, "width": width,
                 "ext": [[frac_str(x) for x in row] for row in c["ext"][n].tolist()],
                 "tok": [frac_str(x) for x in c["tok"][n].tolist()],
                 "blank": frac_str(c["blank"][n].item()),
@@ -463,8 +867,10 @@ class C05(PropertyCheck):
         beta = float(Fraction(lm_spec["beta"]))
         tol = TOL[case["dtype"]]
 
-        def fused(tok, blank, prefix):
-            lg = torch.tensor(lm_logits_of_hash(prefix_hash(prefix), V, lm_spec["seed"], lm_spec["zeros"]), dtype=dtype)
+        h0s = lm_spec.get("init")
+
+        def fused(tok, blank, prefix, n):
+            lg = torch.tensor(lm_row(lm_spec, V, prefix, 1 if h0s is None else h0s[n]), dtype=dtype)
             if lm_spec["valid"]:
                 return (1.0 - beta) * tok + beta * lg.softmax(-1) * (1 - blank)
             return (beta * lg.log_softmax(-1)).exp() * tok
@@ -476,7 +882,7 @@ class C05(PropertyCheck):
                 tab = {}
                 for L in range(t + 1):
                     for p in itertools.product(range(V), repeat=L):
-                        tab[p] = [Fraction(float(x)) for x in fused(tok, blank, p).tolist()]
+                        tab[p] = [Fraction(float(x)) for x in fused(tok, blank, p, n).tolist()]
                 st = el["steps"][t]["in"]
                 for k, p in enumerate(st["prefixes"]):
                     if isinstance(tot_of(st, k), str):
@@ -504,7 +910,8 @@ class C05(PropertyCheck):
             return None
         els = []
         for el in obs["elements"]:
-            frames = [{"ext": s["ext"], "nonext": s["tok"], "blank": s["blank"], "sel": s["sel"]} for s in el["steps"]]
+            frames = [{"ext": s["ext"], "nonext": s["tok"], "blank": s["blank"], "sel": s["sel"], "width": s["width"]}
+                      for s in el["steps"]]
             keeps = []
             for s in el["steps"][: el["len"]]:
                 o = s["out"]
@@ -512,9 +919,22 @@ class C05(PropertyCheck):
             e = {"len": el["len"], "frames": frames, "keeps": keeps}
             if el.get("ext_table") is not None:
                 e["ext_table"] = el["ext_table"]
+            init = case.get("init")
+            if init is not None:
+                den = case.get("denom", 16)
+                xs = lambda v: "-inf" if v == "-inf" else frac_str(Fraction(v, den))
+                e["init"] = {"tm1": init["tm1"], "y": init["y"], "last": init["last"], "lens": init["lens"],
+                             "nb": [xs(v) for v in init["nb"]], "b": [xs(v) for v in init["b"]],
+                             "is_prefix": init["is_prefix"]}
+            # true mass by enumeration of all (V+1)^T alignments: only while that is small
+            e["mass"] = self.wants_mass(case, el)
             els.append(e)
         return {"op": "c05.case", "case": {"fix": not PINNED_MODEL, "V": case["V"], "width": case["width"],
                                            "elements": els}}
+
+    @staticmethod
+    def wants_mass(case, el):
+        return case.get("init") is None and (case["V"] + 1) ** min(el["len"], len(el["steps"])) <= 4200
 
     # ------------------------------------------------------------------ correspondence
     def cmp_state(self, where, a, m, tol, out):
@@ -566,7 +986,10 @@ class C05(PropertyCheck):
             return [(f"implementation raised {impl['error']}: {impl.get('message')}", "C05.raises")]
         if "shape_error" in impl:
             return [(f"result shapes {impl['shape_error']}", "C05.shape")]
-        V, width = case["V"], case["width"]
+        V = case["V"]
+        widths = case.get("widths") or None
+        width = widths[-1] if widths else case["width"]       # slots of the result
+        S0 = case["init"]["tm1"] if case.get("init") else 0
         tol = 0 if case["stream"] == "exact" else TOL[case["dtype"]]
         fails = []
         zero_probs = any(F(x) == 0 for el in impl["elements"] for s in el["steps"] for x in s["tok"] + [s["blank"]])
@@ -574,6 +997,9 @@ class C05(PropertyCheck):
             res = el["result"]
             probs = [F(x) for x in res["probs"]]
             spec = model["elements"][n]["spec"] if model is not None else None
+            if len(probs) != width or len(res["lens"]) != width:
+                fails.append((f"n={n}: {len(probs)} slots for width {width}", "C05.shape"))
+                continue
             # --- never NaN (any call, any slot, and the result)
             nan_at = None
             for t, s in enumerate(el["steps"][: el["len"]]):
@@ -596,8 +1022,8 @@ class C05(PropertyCheck):
                 seen.setdefault(p, k)
                 if any(not (0 <= v < V) for v in p):
                     fails.append((f"n={n}: slot {k} holds a token outside [0,{V}): {list(p)}", "C05.token_range"))
-                if len(p) > el["len"]:
-                    fails.append((f"n={n}: slot {k} prefix longer ({len(p)}) than its input ({el['len']})", "C05.too_long"))
+                if len(p) > el["len"] + S0:
+                    fails.append((f"n={n}: slot {k} prefix longer ({len(p)}) than its input ({el['len'] + S0})", "C05.too_long"))
             for k in range(width - 1):
                 if not leq(probs[k + 1], probs[k], tol):
                     fails.append((f"n={n}: probabilities not non-increasing at slot {k}: {res['probs']}", "C05.order"))
@@ -605,8 +1031,6 @@ class C05(PropertyCheck):
             for k in range(width):
                 if isinstance(probs[k], Fraction) and probs[k] < 0:
                     fails.append((f"n={n}: negative mass in slot {k}", "C05.negative"))
-            if len(res["lens"]) != width:
-                fails.append((f"n={n}: {len(res['lens'])} slots for width {width}", "C05.shape"))
             # --- batch independence
             al = el.get("alone")
             if al is not None:
@@ -627,11 +1051,12 @@ class C05(PropertyCheck):
             if spec is None:
                 continue
             # --- mass: equals the prefix-beam recursion of that width; exact when unpruned; never more
-            mass = {tuple(e["p"]): Fraction(e["m"]) for e in spec["mass"]}
+            has_mass = spec["mass"] is not None
+            mass = {tuple(e["p"]): Fraction(e["m"]) for e in (spec["mass"] or [])}
             beam = {tuple(e["p"]): Fraction(e["nb"]) + Fraction(e["b"]) for e in spec["beam"]}
             fin = [(k, tuple(res["prefixes"][k]), probs[k]) for k in range(width) if isinstance(probs[k], Fraction)]
             for k, p, pr in fin:
-                if pr > 0 and not leq(pr, mass.get(p, Fraction(0)), tol):
+                if has_mass and pr > 0 and not leq(pr, mass.get(p, Fraction(0)), tol):
                     fails.append((f"n={n}: slot {k} reports {float(pr):.6g} for {list(p)}, more than its true mass "
                                   f"{float(mass.get(p, 0)):.6g}", "C05.over"))
                 if pr > 0 and not close(pr, beam.get(p, Fraction(0)), tol):
@@ -647,21 +1072,23 @@ class C05(PropertyCheck):
                                   if p not in got or got[p] == 0 else "C05.beam_mass"))
                     break
             pruned = any(f["pruned"] for f in spec["frames"])
-            if not pruned:
+            if not pruned and has_mass:
                 for p, m in mass.items():
                     if m > 0 and not close(got.get(p, Fraction(0)), m, tol):
                         fails.append((f"n={n}: nothing had to be pruned, prefix {list(p)} has true mass {float(m):.6g} "
                                       f"but the search reports {float(got.get(p, 0)):.6g}", "C05.lost_unpruned"))
                         break
             for t, f in enumerate(spec["frames"]):
-                if f["nkeep"] < min(width, f["ncands"]):
+                wt = widths[t] if widths else width
+                if f["nkeep"] < min(wt, f["ncands"]):
                     fails.append((f"n={n}: frame {t} keeps {f['nkeep']} of {f['ncands']} candidate prefixes although "
-                                  f"the width {width} has room: a real prefix was dropped / wiped", "C05.poison.neginf_duplicate"))
+                                  f"the width {wt} has room: a real prefix was dropped / wiped", "C05.poison.neginf_duplicate"))
                     break
             if tol == 0:
                 for t, f in enumerate(spec["frames"]):
+                    wt = widths[t] if widths else width
                     if not f["topk_ok"]:
-                        fails.append((f"n={n}: the prefixes kept at frame {t} are not the best {width} candidates "
+                        fails.append((f"n={n}: the prefixes kept at frame {t} are not the best {wt} candidates "
                                       f"of the prefix-beam recursion", "C05.not_topk"))
                         break
         return fails[:8]
@@ -692,9 +1119,27 @@ class C05(PropertyCheck):
             t.append("malformed")
             return t
         if case.get("lm"):
-            t.append(f"lm beta={case['lm']['beta']} valid={case['lm']['valid']}")
+            lm = case["lm"]
+            t.append(f"lm beta={lm['beta']} valid={lm['valid']}")
+            t.append("lm kind=" + lm.get("kind", "hash") + ("+" + lm.get("second", "shapes") if lm.get("kind") == "fusion" else ""))
+            if lm.get("init") is not None:
+                t.append("lm initial-state-by-caller")
         else:
             t.append("no-lm")
+        t.append("gen=" + case.get("gen", "base"))
+        if case["kind"] == "module":
+            t.append("layout=" + (case.get("layout") or "contig"))
+            t.append("lens=" + ("None" if case["lens"] is None else case.get("lens_dtype", "i64") +
+                                ("/strided" if case.get("lens_layout") else "")))
+        else:
+            if case.get("widths") and len(set(case["widths"])) > 1:
+                t.append("advance:width-changes-between-calls")
+            if case.get("init"):
+                t.append("advance:caller-given-state")
+        if case.get("grad"):
+            t.append("autograd-on")
+        if case.get("beta_int"):
+            t.append("beta-as-int")
         if "elements" in impl:
             T = max([len(el["steps"]) for el in impl["elements"]] + [0])
             t.append(f"T={T}")
@@ -715,6 +1160,10 @@ class C05(PropertyCheck):
                         over = True
                     if any(F(x) == 0 for x in s["tok"] + [s["blank"]]):
                         zero = True
+            ev = set()
+            for el in impl["elements"]:
+                ev |= trace_events(el)
+            t.extend("history:" + e for e in sorted(ev))
             if merged:
                 t.append("merge-happened")
             if over:
@@ -726,6 +1175,19 @@ class C05(PropertyCheck):
     def shrink(self, case):
         if case.get("expect_error"):
             return
+        for fld in ("layout", "lens_layout", "lens_dtype", "grad", "beta_int", "prev_empty"):
+            if case.get(fld):
+                c = dict(case)
+                del c[fld]
+                yield c
+        if case.get("lm") and case["lm"].get("init") is not None:
+            yield dict(case, lm=dict(case["lm"], init=None))
+        if case.get("lm") and case["lm"].get("kind", "hash") != "hash":
+            yield dict(case, lm=dict(case["lm"], kind="hash"))
+        if case.get("widths"):
+            c = dict(case)
+            del c["widths"]
+            yield c
         if case["kind"] == "module":
             T = len(case["logits"])
             N = len(case["logits"][0]) if T else 1
@@ -735,6 +1197,8 @@ class C05(PropertyCheck):
                     c["logits"] = [[fr[n]] for fr in case["logits"]]
                     c["lens"] = None if case["lens"] is None else [case["lens"][n]]
                     c["N"] = 1
+                    if case.get("lm") and case["lm"].get("init") is not None:
+                        c["lm"] = dict(case["lm"], init=[case["lm"]["init"][n]])
                     yield c
             if T > 0:
                 c = dict(case)
@@ -750,12 +1214,16 @@ class C05(PropertyCheck):
                 yield dict(case, lm=None)
         else:
             if len(case["frames"]) > 1:
-                yield dict(case, frames=case["frames"][:-1])
+                c = dict(case, frames=case["frames"][:-1])
+                if case.get("widths"):
+                    c["widths"] = case["widths"][:-1]
+                yield c
             if case["ext_seed"] is not None:
                 yield dict(case, ext_seed=None)
-        for w in (case["width"] - 1, case["width"] // 2):
-            if 1 <= w < case["width"]:
-                yield dict(case, width=w)
+        if not case.get("widths"):
+            for w in (case["width"] - 1, case["width"] // 2):
+                if 1 <= w < case["width"]:
+                    yield dict(case, width=w)
         if case["dtype"] == "f32" and case["stream"] == "exact":
             yield dict(case, dtype="f64")
 
